@@ -1,5 +1,304 @@
-"""Generators shared by several properties."""
+"""Generators shared by several properties: a small IR for annotated items, a renderer and a
+random item generator for the E-exp (in-process expansion) properties."""
+import copy
+
 from . import common as C
+from . import cmpmodel as M
+
+STRUCT_TRAITS = C.BASIC + C.CMP + C.BINOPS + C.ASSIGNOPS + C.UNOPS
+ENUM_TRAITS = C.BASIC + C.CMP
+HELPERS = ["ord", "partial_ord", "eq", "partial_eq", "hash", "debug", "default"]
+
+FOREIGN = [
+    "#[doc = \"some doc\"]", "/// doc comment", "#[allow(dead_code)]", "#[cfg_attr(test, allow(unused))]",
+    "#[serde(rename = \"x\", skip)]", "#[a::b(c)]", "#[path_attr::nested::deep]", "#[name = \"value\"]",
+    "#[must_use]", "#[rustfmt::skip]", "#[clippy::foo]", "#[derive(Foo)]", "#[cfg(all())]", "#[inline]",
+]
+TYPE_FOREIGN = ["#[repr(C)]", "#[non_exhaustive]", "#[derive(Other, Traits)]", "#[repr(u8)]"]
+VIS = ["", "pub ", "pub(crate) ", "pub(super) ", "pub(in crate) "]
+FIELD_TYPES = ["u8", "String", "T", "Vec<T>", "Option<U>", "(T, U)", "[u8; N]", "&'a T", "Box<T>", "::std::rc::Rc<T>",
+               "::core::marker::PhantomData<T>", "fn(T) -> U", "*const T", "i64", "f64", "<T as Tr>::Assoc", "T::Assoc"]
+
+
+def A(text, owner=None):
+    return {"text": text, "owner": owner}
+
+
+def render_attrs(attrs, keep):
+    return "".join(a["text"] + ("\n" if a["text"].startswith("///") else " ") for a in attrs if keep(a))
+
+
+def render_fields(style, fields, keep):
+    if style == "unit":
+        return ""
+    parts = []
+    for f in fields:
+        s = render_attrs(f["attrs"], keep) + f.get("vis", "")
+        if style == "named":
+            s += f"{f['name']}: {f['ty']}"
+        else:
+            s += f["ty"]
+        parts.append(s)
+    body = ", ".join(parts)
+    return "{ " + body + " }" if style == "named" else "(" + body + ")"
+
+
+def render(item, keep=lambda a: True):
+    g = f"<{item['generics']}>" if item.get("generics") else ""
+    w = f" where {item['where']}" if item.get("where") else ""
+    s = render_attrs(item["attrs"], keep) + item.get("vis", "")
+    if item["kind"] == "struct":
+        body = render_fields(item["style"], item["fields"], keep)
+        if item["style"] == "named":
+            return f"{s}struct {item['name']}{g}{w} {body}"
+        return f"{s}struct {item['name']}{g}{body}{w};"
+    if item["kind"] == "enum":
+        vs = []
+        for v in item["variants"]:
+            t = render_attrs(v["attrs"], keep) + v["name"] + render_fields(v["style"], v["fields"], keep)
+            if v.get("disc"):
+                t += " " + v["disc"]
+            vs.append(t)
+        return f"{s}enum {item['name']}{g}{w} {{ " + ", ".join(vs) + " }"
+    if item["kind"] == "impl":
+        return f"{s}impl{g} {item['trait']} for {item['self_ty']}{w} {{ {item['body']} }}"
+    raise ValueError(item["kind"])
+
+
+def keep_for_derived(derived):
+    """C14: attributes expected to survive re-emission when `derived` traits are requested."""
+    def keep(a):
+        o = a["owner"]
+        if o is None:
+            return True
+        if o == "derive_ex":
+            return False
+        return not any(t in derived for t in M.OWNS[o])
+    return keep
+
+
+def dontcare_helper(item_attrs_iter, derived):
+    for a in item_attrs_iter:
+        o = a["owner"]
+        if o and o != "derive_ex":
+            for (h, t) in M.OWNS_DONTCARE:
+                if o == h and t in derived and not any(x in derived for x in M.OWNS[o]):
+                    return True
+    return False
+
+
+def all_attrs(item):
+    yield from item["attrs"]
+    for f in item.get("fields", []):
+        yield from f["attrs"]
+    for v in item.get("variants", []):
+        yield from v["attrs"]
+        for f in v["fields"]:
+            yield from f["attrs"]
+
+
+# ---------------------------------------------------------------------------
+# random generation
+# ---------------------------------------------------------------------------
+
+def rand_bound(rng, trait_hint=None):
+    opts = ["bound()", "bound(T)", "bound(..)", "bound(T: Copy)", "bound(T: Clone + Copy, ..)", "bound(Vec<T>)",
+            "bound(T, U: ::core::fmt::Debug)", "bound(T: 'static, ..)", "bound(Option<U>, ..)"]
+    return rng.choice(opts)
+
+
+def cmp_helper_attrs(rng, derived_cmp, allow_invalid=False):
+    """Comparison helper attributes for one field, (mostly) accepted for the derived comparison traits."""
+    if not derived_cmp:
+        return []
+    combos = M.all_combos()
+    for _ in range(40):
+        combo = rng.choice(combos)
+        # only attributes owned by a derived trait are helpers; keep the rest out here
+        if any(o != "-" and not any(t in derived_cmp for t in M.OWNS[a]) for a, o in zip(M.ATTRS, combo)):
+            continue
+        if sum(o != "-" for o in combo) > 3:
+            continue
+        if allow_invalid or all(M.status(t, combo) == "accept" for t in derived_cmp):
+            break
+    else:
+        return []
+    key = {a: rng.choice(["$.0", "k(&$)", "$.len()", "{ let x = &$; x.k() }", "f($.0, [$.1])", "$"]) for a in M.ATTRS}
+    by = {"ord": "cmp_fn", "partial_ord": "|a, b| a.partial_cmp(b)", "eq": "eq_fn", "partial_eq": "|a, b| a == b",
+          "hash": "hash_fn"}
+    out = []
+    for a, o in zip(M.ATTRS, combo):
+        if o == "-":
+            if rng.random() < 0.08 and any(t in derived_cmp for t in M.OWNS[a]):
+                out.append(A(f"#[{a}({rand_bound(rng)})]", a))
+            continue
+        fl = M.flags(o)
+        args = []
+        if fl["ignore"]:
+            args.append("ignore")
+        if fl["reverse"]:
+            args.append("reverse")
+        if fl["key"]:
+            args.append(f"key = {key[a]}")
+        if fl["by"]:
+            args.append(f"by = {by[a]}")
+        if rng.random() < 0.15:
+            args.append(rand_bound(rng))
+        out.append(A(f"#[{a}({', '.join(args)})]", a))
+    rng.shuffle(out)
+    return out
+
+
+def field_helper_attrs(rng, derived, position_ok_transparent):
+    out = []
+    dcmp = [t for t in derived if t in C.CMP]
+    out += cmp_helper_attrs(rng, dcmp) if rng.random() < 0.5 else []
+    if "Debug" in derived and rng.random() < 0.3:
+        c = rng.random()
+        if c < 0.5:
+            out.append(A("#[debug(ignore)]", "debug"))
+        elif c < 0.7 and position_ok_transparent:
+            out.append(A("#[debug(transparent)]", "debug"))
+        else:
+            out.append(A(f"#[debug({rand_bound(rng)})]", "debug"))
+    if "Default" in derived and rng.random() < 0.3:
+        v = rng.choice(["5", "\"abc\"", "S", "T::new()", "_", "-1", "{ 1 + 2 }", "Self::K", "Default::default()"])
+        b = ", " + rand_bound(rng) if rng.random() < 0.3 else ""
+        out.append(A(f"#[default({v}{b})]", "default"))
+    if rng.random() < 0.15 and derived:
+        t = rng.choice(derived)
+        out.append(A(f"#[derive_ex({t}({rand_bound(rng)}))]" if rng.random() < 0.6 else f"#[derive_ex({t}, {rand_bound(rng)})]",
+                     "derive_ex"))
+    return out
+
+
+def other_helper_attrs(rng, derived):
+    """Helper-named attributes of traits that are NOT derived (must be kept, C14)."""
+    out = []
+    for h in HELPERS:
+        if rng.random() < 0.06 and not any(t in derived for t in M.OWNS[h]) and \
+                not any((h, t) in M.OWNS_DONTCARE for t in derived):
+            out.append(A(f"#[{h}({rng.choice(['ignore', 'x = 1', 'bound(T)', ''])})]", h))
+    return out
+
+
+def interleave_foreign(rng, attrs, pool, p=0.35):
+    out = list(attrs)
+    while rng.random() < p:
+        out.insert(rng.randrange(len(out) + 1), A(rng.choice(pool)))
+    return out
+
+
+def gen_fields(rng, derived, n=None, style=None):
+    style = style or rng.choice(["named", "tuple", "unit"])
+    if style == "unit":
+        return style, []
+    n = rng.randint(0, 4) if n is None else n
+    fields = []
+    transparent_used = False
+    for i in range(n):
+        hs = field_helper_attrs(rng, derived, not transparent_used)
+        if any("transparent" in a["text"] for a in hs):
+            transparent_used = True
+        hs += other_helper_attrs(rng, derived)
+        attrs = interleave_foreign(rng, hs, FOREIGN)
+        fields.append({"attrs": attrs, "vis": rng.choice(VIS) if rng.random() < 0.3 else "",
+                       "name": f"f{i}", "ty": rng.choice(FIELD_TYPES)})
+    return style, fields
+
+
+def gen_generics(rng):
+    c = rng.random()
+    if c < 0.25:
+        return "", ""
+    g = rng.choice(["T", "T, U", "'a, T", "'a, T: 'a + Copy, U = u8", "T, const N: usize", "'a, T, U, const N: usize",
+                    "T: Tr, U", "T: ?Sized"])
+    w = rng.choice(["", "", "T: Clone", "Self: Sized, T: Copy", "Vec<T>: ::core::fmt::Debug", "for<'x> &'x T: Copy"])
+    return g, w
+
+
+def gen_type_item(rng, kind=None, derived=None):
+    kind = kind or rng.choice(["struct", "enum"])
+    pool = STRUCT_TRAITS if kind == "struct" else ENUM_TRAITS
+    if derived is None:
+        k = rng.choice([1, 1, 2, 2, 3, 4, 6])
+        derived = rng.sample(pool, min(k, len(pool)))
+    g, w = gen_generics(rng)
+    item = {"kind": kind, "name": "Ty", "vis": rng.choice(VIS), "generics": g, "where": w}
+    tattrs = []
+    dcmp = [t for t in derived if t in C.CMP]
+    if dcmp and rng.random() < 0.15:
+        h = rng.choice([a for a in M.ATTRS if any(t in dcmp for t in M.OWNS[a])])
+        tattrs.append(A(f"#[{h}({rand_bound(rng)})]", h))
+    if "Debug" in derived and rng.random() < 0.15:
+        tattrs.append(A(f"#[debug({rand_bound(rng)})]", "debug"))
+    if "Default" in derived and rng.random() < 0.2:
+        tattrs.append(A(rng.choice(["#[default(Self::new())]", "#[default(_, bound(T))]", f"#[default(_, {rand_bound(rng)})]"]), "default"))
+    tattrs += other_helper_attrs(rng, derived)
+    item["attrs"] = interleave_foreign(rng, tattrs, FOREIGN + TYPE_FOREIGN, 0.45)
+    if kind == "struct":
+        item["style"], item["fields"] = gen_fields(rng, derived)
+    else:
+        vs = []
+        nv = rng.choice([0, 1, 1, 2, 2, 3, 4])
+        default_at = rng.randrange(nv) if nv else None
+        for i in range(nv):
+            style, fields = gen_fields(rng, derived, n=rng.randint(0, 3))
+            vattrs = []
+            if "Default" in derived and i == default_at and (nv > 1 or rng.random() < 0.5):
+                vattrs.append(A(rng.choice(["#[default]", f"#[default(_, {rand_bound(rng)})]"]), "default"))
+            if rng.random() < 0.1 and derived:
+                t = rng.choice(derived)
+                vattrs.append(A(f"#[derive_ex({t}({rand_bound(rng)}))]", "derive_ex"))
+            if dcmp and rng.random() < 0.08:
+                h = rng.choice([a for a in M.ATTRS if any(t in dcmp for t in M.OWNS[a])])
+                vattrs.append(A(f"#[{h}({rand_bound(rng)})]", h))
+            vattrs += other_helper_attrs(rng, derived)
+            v = {"attrs": interleave_foreign(rng, vattrs, FOREIGN), "name": f"V{i}", "style": style, "fields": fields}
+            if style == "unit" and rng.random() < 0.15:
+                v["disc"] = f"= {i * 3 + 1}"
+            vs.append(v)
+        item["variants"] = vs
+    return item, derived
+
+
+def gen_trait_args(rng, derived, allow_dump=False):
+    """Render the trait list with per-trait / shared bound(..) arguments.  Returns list of element strings."""
+    elems = []
+    for t in derived:
+        if rng.random() < 0.2:
+            elems.append(f"{t}({rand_bound(rng)})")
+        else:
+            elems.append(t)
+    shared = []
+    if rng.random() < 0.2:
+        shared.append(rand_bound(rng))
+    return elems, shared
+
+
+def gen_impl_item(rng):
+    op = rng.choice(C.BINOPS)
+    assign = rng.random() < 0.25
+    tr = op + ("Assign" if assign else "")
+    fn = C.OPFN[op] + ("_assign" if assign else "")
+    g, w = rng.choice([("", ""), ("T", "T: Clone"), ("T: Copy", "Self: Sized"), ("'a, T", "")])
+    ty = "X<T>" if "T" in g else "X"
+    lref = rng.random() < 0.5 and not assign
+    rhs = rng.choice([ty, f"&{ty}", "u8", "&u8", None])
+    self_ty = f"&{ty}" if lref else ty
+    trait = f"::core::ops::{tr}" + (f"<{rhs}>" if rhs else "")
+    rty = rhs or self_ty
+    if assign:
+        body = f"fn {fn}(&mut self, rhs: {rty}) {{ let _ = rhs; }}"
+    else:
+        body = f"type Output = {ty}; fn {fn}(self, rhs: {rty}) -> Self::Output {{ let _ = rhs; todo!() }}"
+    item = {"kind": "impl", "attrs": interleave_foreign(rng, [], FOREIGN, 0.3), "generics": g, "where": w, "trait": trait,
+            "self_ty": self_ty, "body": body}
+    if assign:
+        derived = [op]
+    else:
+        derived = rng.choice([[op], [op + "Assign"], [op, op + "Assign"]])
+    return item, derived
 
 
 def fuzz_seeds(rng):
@@ -17,8 +316,18 @@ def fuzz_seeds(rng):
         ("Deref, DerefMut", "struct R<T: ?Sized>(Box<T>);"),
         ("Add, AddAssign", "impl<T> std::ops::Add<&X<T>> for &X<T> where Self: Sized { type Output = X<T>; fn add(self, rhs: &X<T>) -> X<T> { todo!() } }"),
         ("Sub", "impl std::ops::SubAssign<u8> for Y { fn sub_assign(&mut self, rhs: u8) {} }"),
+        ("Debug, Clone", "struct Dy { a: u8, t: dyn ::core::fmt::Debug + Send }"),
     ]
     for attr, item in items:
         out.append({"entry": "attr", "attr": attr, "item": item, "origin": "gen"})
         out.append({"entry": "derive", "attr": "", "item": f"#[derive_ex({attr})] {item}", "origin": "gen"})
+    for _ in range(60):
+        it, derived = gen_type_item(rng)
+        elems, shared = gen_trait_args(rng, derived)
+        attr = ", ".join(elems + shared)
+        out.append({"entry": "attr", "attr": attr, "item": render(it), "origin": "gen"})
+        out.append({"entry": "derive", "attr": "", "item": f"#[derive_ex({attr})] " + render(it), "origin": "gen"})
+    for _ in range(12):
+        it, derived = gen_impl_item(rng)
+        out.append({"entry": "attr", "attr": ", ".join(derived), "item": render(it), "origin": "gen"})
     return out
